@@ -222,6 +222,30 @@ def shard(prop, tier, seed, shard, nshards):
             "mixed": draw(st.lists(st.integers(0, 1), min_size=2, max_size=5))}}
 
     core.drive(hcase(), check_case, acc, 120 if tier == "quick" else 2000, seed * 1000 + shard)
+
+    # second family: controller + agents with asynchronous requests (set_data / get_data), also inside groups
+    from mvf.props import c16
+
+    @st.composite
+    def acase(draw):
+        nag = draw(st.integers(1, 2))
+        scn = c16.build(nag, draw(st.lists(st.integers(1, 3), min_size=1, max_size=2)),
+                        [draw(st.lists(st.integers(1, 3), min_size=1, max_size=2)) for _ in range(nag)],
+                        [draw(st.lists(st.integers(0, 1), min_size=1, max_size=3)) for _ in range(nag)],
+                        [draw(st.lists(st.sampled_from([0, 0, 1]), min_size=1, max_size=2)) for _ in range(nag)],
+                        [0] * nag, a_type=draw(st.sampled_from(["time-based", "hybrid"])), until=draw(st.integers(2, 6)))
+        grouped = draw(st.sampled_from([0, 1, 2]))
+        if grouped == 1:
+            scn["tree"] = [scn["tree"]]
+        elif grouped == 2:
+            scn["tree"] = [scn["tree"][:1], scn["tree"][1:]]
+        sids = [s["sid"] for s in scn["sims"]]
+        return {"scenario": scn, "variants": {
+            "picks": draw(st.lists(st.integers(0, 4), min_size=3, max_size=20)),
+            "starve": draw(st.sampled_from(sids)), "perm": draw(st.permutations([0, 1, 2, 3])),
+            "mixed": draw(st.lists(st.integers(0, 1), min_size=2, max_size=4))}}
+
+    core.drive(acase(), check_case, acc, 25 if tier == "quick" else 600, seed * 1000 + 300 + shard)
     micro = sorted(gen.micro_scenarios().items())
     runs, complete = 0, True
     for i, (name, scn) in enumerate(micro):
